@@ -65,3 +65,34 @@ func TestC07UntouchedNumberKeepsItsValue(t *testing.T) {
 		t.Fatalf("untouched number changed to %s", got)
 	}
 }
+
+// C07.R11 (known finding): `SET a = b` stores b's own object under a; a later clause that changes b in place
+// (SET b[0] = …, REMOVE b[0], list_append-free list element assignment) changes a as well, although a was assigned the
+// pre-update value of b. The two paths (a, b[0]) do not overlap, so the expression is valid.
+func TestC07SetCopiesTheOperand(t *testing.T) {
+	it := map[string]*types.Item{"b": {L: []*types.Item{{S: str1("old")}}}}
+	if err := update(t, "SET a = b, b[0] = :x", it, map[string]*types.Item{":x": {S: str1("new")}}); err != nil {
+		t.Fatal(err)
+	}
+	if got := *it["a"].L[0].S; got != "old" {
+		t.Fatalf("a[0] = %q, want the pre-update value of b[0] (old): a shares b's list object", got)
+	}
+}
+
+// the copy made by SET copes with a list that has an element removed earlier in the same expression
+func TestC07SetCopyOfListWithRemovedElement(t *testing.T) {
+	for _, expr := range []string{"REMOVE b[0] SET a = b", "SET a = b REMOVE b[0]", "SET m.c = b REMOVE b[1]", "REMOVE m.l[0] SET a = m"} {
+		it := map[string]*types.Item{
+			"b": {L: []*types.Item{{S: str1("x")}, {S: str1("y")}}},
+			"m": {M: map[string]*types.Item{"l": {L: []*types.Item{{S: str1("p")}, {S: str1("q")}}}}},
+		}
+		if err := update(t, expr, it, nil); err != nil {
+			t.Fatalf("%s: %v", expr, err)
+		}
+		for k, v := range it {
+			if v == nil || (v.L == nil && v.M == nil) {
+				t.Fatalf("%s: attribute %s lost its type: %#v", expr, k, v)
+			}
+		}
+	}
+}
